@@ -233,6 +233,13 @@ class Link:
         self.ppm, self.BS, self.ES, self.gv, self.DAC = ppm, binary_sequence, electrical_signal, gv, DAC
         self.rec = rec
         self.clock = seams.install_clock(0)
+        self.kept = []          # (result object, expected content) of earlier decoder calls
+
+    def _check_kept(self, what):
+        for o, exp in self.kept:
+            if o.data.tolist() != exp:
+                raise Violation("C12/sdd", f"{what}: a result returned by an earlier call changed while the decoder was "
+                                           f"used again (result shares a buffer with library state)", "result-unstable")
 
     def apply(self, op, step):
         self.rec.n_ops += 1
@@ -342,6 +349,7 @@ class Link:
                 raise Violation("C12/hdd-choice", f"{what}: HDD not reproducible under np.random.seed({op['hseed']})",
                                 "hdd/seed-repeat")
             check_hdd_output(rx, o1, M, what, f"[seed {op['hseed']}]")
+            self._check_kept(what)
             outs.append(o1)
             self.rec.probe("HDD real-seed twin")
         else:
@@ -442,6 +450,8 @@ class Link:
         except Exception as e:
             raise Violation("C12/sdd", f"{what}: SDD raised {type(e).__name__}: {e}", "sdd/raise")
         got = _check_valid_bs(out, self.BS, nsym * M, what)
+        self._check_kept(what)
+        self.kept = (self.kept + [(out, list(got))])[-3:]
         now = [b for _, b in seams.obj_buffers(arg)] if isinstance(arg, self.ES) else \
             ([arg] if isinstance(arg, np.ndarray) else [])
         for a_, b_ in zip(g, now):
